@@ -53,13 +53,19 @@ def editRt (st : State) (r obj : String)
   match parseObj obj, st.actors.find? (fun p => p.1 == r) with
   | some o, some (_, actor) =>
     let d := getReplica st r
+    let isoHeads := (st.iso.find? (fun p => p.1 == r)).map (·.2)
     let (t, st1) := match st.txs.find? (fun p => p.1 == r) with
       | some (_, t) => (t, st)
       | none =>
-        let d' : Doc := { d with queue := removeActorBranchFrom d.queue actor (d.seqForActor actor + 1) }
-        (d.beginTx actor, setReplica st r d')
+        match isoHeads with
+        | some hs => (d.beginTx (d.isolateActor actor hs), st)
+        | none =>
+          let d' : Doc := { d with queue := removeActorBranchFrom d.queue actor (d.seqForActor actor + 1) }
+          (d.beginTx actor, setReplica st r d')
     let d := getReplica st1 r
-    match f st1.enc (d.ops ++ t.pending) t o with
+    -- an isolated transaction reads the document at the isolation heads (plus its own ops)
+    let base := match isoHeads with | some hs => (d.at hs).ops | none => d.ops
+    match f st1.enc (base ++ t.pending) t o with
     | none => (st1, ["bad-input"])
     | some (newOps, res, showId) =>
       let t' : Tx := { t with pending := t.pending ++ newOps }
